@@ -34,7 +34,14 @@ struct VecSpec {             // explicit vector, or affine formula relative to t
   bool formula = false;
   double a = 0, b = 0; int len_delta = 0; long len_abs = -1;
   std::vector<double> v;
+  std::vector<double> cyc;     // "cycle": repeat this pattern over the natural length (+ len_delta)
   std::vector<double> make(size_t natural) const {
+    if (!cyc.empty()) {
+      long n = (long)natural + len_delta; if (n < 0) n = 0;
+      std::vector<double> r((size_t)n);
+      for (long i = 0; i < n; ++i) r[i] = cyc[i % cyc.size()];
+      return r;
+    }
     if (!formula) return v;
     long n = len_abs >= 0 ? len_abs : (long)natural + len_delta;
     if (n < 0) n = 0;
@@ -76,6 +83,12 @@ inline bool ReadVec(std::istringstream& is, VecSpec& vs) {
     is >> sa >> sb >> mode >> k;
     vs.a = strtod(sa.c_str(), 0); vs.b = strtod(sb.c_str(), 0);
     if (mode == "len") vs.len_abs = k; else vs.len_delta = (int)k;
+    return true;
+  }
+  if (tok == "cycle") {        // cycle k v1..vk delta d
+    long k; is >> k;
+    for (long i = 0; i < k; ++i) { std::string sv; is >> sv; vs.cyc.push_back(strtod(sv.c_str(), 0)); }
+    std::string mode; long d = 0; is >> mode >> d; vs.len_delta = (int)d;
     return true;
   }
   long n = atol(tok.c_str());
